@@ -286,6 +286,32 @@ def rule_defaults(ctx):
         ctx.violated('R5', fi, 'get_dims', 'get_dims must collect dimension names in operand order, each once')
 
 
+def rule_numpy_scalar_left(ctx):
+    """R13: "With a scalar operand (in either operand order) ... the result equals the NumPy result on .values with the DimArray's axes unchanged".
+    A NumPy scalar on the left (np.float64(2) * a, a.mean() - a: reductions return NumPy scalars) is handled by the scalar's own operator unless the right
+    operand asks NumPy to defer: a class attribute __array_priority__ above ndarray's (0.0), or __array_ufunc__ = None (NumPy's documented deferral
+    protocol, trusted). Without it the reflected operators of OpMixin are never called and the result is a bare ndarray without axes."""
+    ctx.rule('R13', 'NumPy scalars on the left defer to the reflected operators (__array_priority__ / __array_ufunc__)', 1)
+    P = ctx.P
+    cls = P.cls('dimarray.core.dimarraycls.DimArray')
+    pr = P.lookup(cls, '__array_priority__')
+    uf = P.lookup(cls, '__array_ufunc__')
+    val = None
+    if pr is not None and pr.kind == 'const':
+        try:
+            val = ast.literal_eval(pr.value)
+        except Exception:
+            val = None
+    ok = (isinstance(val, (int, float)) and not isinstance(val, bool) and val > 0) or \
+        (uf is not None and uf.kind == 'const' and isinstance(uf.value, ast.Constant) and uf.value.value is None)
+    if ok:
+        ctx.holds('R13', 'DimArray declares %s' % ('__array_priority__ = %r' % val if val is not None else '__array_ufunc__ = None'))
+    else:
+        ctx.violated('R13', 'dimarray.core.dimarraycls.DimArray', 'no __array_priority__ / __array_ufunc__ on DimArray or its bases',
+                     'a NumPy scalar as left operand (np.float64(2) * a, a.mean() - a) never reaches DimArray.__rmul__ / __rsub__ ...: NumPy only defers to an operand '
+                     'whose __array_priority__ exceeds its own (or that sets __array_ufunc__ = None); the result is a bare ndarray, the axes are lost')
+
+
 def rule_env(ctx):
     ctx.rule('R6', 'NumPy names reachable from operation() resolve', 1)
     entries = [ctx.fn('dimarray.core.operation.operation'), ctx.fn('dimarray.core.align.align'),
@@ -344,6 +370,7 @@ def check(ctx):
     ctx.rule('R11', 'Axis.__setitem__ keeps the widened label buffer it writes into', 1)
     _c05.rule_axis_setitem(ctx, 'R11')
     rule_env(ctx)
+    rule_numpy_scalar_left(ctx)
     # the alignment step that operation() delegates to: reindex loop of align()
     from . import c06
     c06.rule_align(ctx, rid='R7')
